@@ -99,6 +99,16 @@ pub use msg::message::{Message, MessageBuilder};
 mod message_frame;
 pub use message_frame::MessageFrame;
 
+/// Verification hook (only with `--cfg rtcm_rs_verif`): public view of the crate-private
+/// bit packer, bit reader, carrier types and data-field codecs. Adds no behaviour.
+#[cfg(rtcm_rs_verif)]
+pub mod verif_hook {
+    pub use crate::df::assembler::Assembler;
+    pub use crate::df::bit_value;
+    pub use crate::df::dfs;
+    pub use crate::df::parser::Parser;
+}
+
 pub mod prelude {
     pub use crate::rtcm_error::RtcmError;
     #[cfg(feature = "test_gen")]
